@@ -920,6 +920,32 @@ class Interp:
             env.set(t.id, v)
         elif isinstance(t, (ast.Tuple, ast.List)):
             n = len(t.elts)
+            star = [k for k, e in enumerate(t.elts) if isinstance(e, ast.Starred)]
+            if star:
+                # head, *rest = seq: the starred name gets the list of what the others leave
+                if len(star) != 1:
+                    raise AnalysisError(f"{self.cur_func()}: two starred targets at line {stmt.lineno}")
+                k = star[0]
+                tail = n - 1 - k
+                if not (isinstance(v, TupV) and len(v.items) >= n - 1):
+                    if isinstance(v, (Vec, Arr2, Buf, Inst, DictV)):
+                        raise AnalysisError(f"{self.cur_func()}: starred unpacking of something else than a sequence of known length at line {stmt.lineno}")
+                    # an opaque sequence: its elements by position (from the front, from the back), the rest as one term
+                    base = self.to_nf(v)
+                    for i, e in enumerate(t.elts[:k]):
+                        self._assign(e, Num(nf.fn("item", base, nf.const(i))), env, stmt)
+                    self._assign(t.elts[k].value, Num(nf.fn("items", base, nf.const(k), nf.const(-tail))), env, stmt)
+                    for i, e in enumerate(t.elts[k + 1 :]):
+                        self._assign(e, Num(nf.fn("item", base, nf.const(i - tail))), env, stmt)
+                    return
+                items = list(v.items)
+                mid = items[k : len(items) - tail]
+                for e, x in zip(t.elts[:k], items[:k]):
+                    self._assign(e, x, env, stmt)
+                self._assign(t.elts[k].value, TupV(mid, is_list=True) if "is_list" in getattr(TupV, "__dataclass_fields__", {}) else TupV(mid), env, stmt)
+                for e, x in zip(t.elts[k + 1 :], items[len(items) - tail :] if tail else []):
+                    self._assign(e, x, env, stmt)
+                return
             if isinstance(v, TupV) and len(v.items) == n:
                 parts = v.items
             elif isinstance(v, ExtObj) and v.qual == "zip" and v.args and all(k.isdigit() for k in v.args):
@@ -965,7 +991,16 @@ class Interp:
             self.attr_heap[(nf.key(self.to_nf(base)), attr)] = v
 
     def _store_sub(self, base, t, v, env, stmt):
-        self._store_index(base, self._eval_index(t.slice, env), v, stmt)
+        idx = self._eval_index(t.slice, env)
+        if isinstance(base, Num) and isinstance(idx, BoolV) and idx.kind == "cmp" and isinstance(t.value, ast.Name) and getattr(self, "array_mode", False):
+            # a masked store into an array that so far is an element-wise expression (mu = f(p); mu[p >= pb] = g(...)):
+            # from here on the name is a result buffer filled with that expression, with one masked part
+            a_ = self.single_atom(base.nf)
+            if not (a_ is not None and a_[0] == "sym"):
+                buf = Buf(base, None, {}, [], "expression", stmt)
+                env.set(t.value.id, buf)
+                base = buf
+        self._store_index(base, idx, v, stmt)
 
     def _store_index(self, base, idx, v, stmt):
         self.log("store_sub", stmt, base=base, index=idx, value=v)
@@ -1825,7 +1860,7 @@ class Interp:
         if _is_slice(idx) and isinstance(base, Num):
             lo, hi = _slice_bounds(idx)
             if lo is not False and hi is not False and (lo or 0) >= 0 and (hi is None or hi <= 0):
-                v = Vec(nf.fn("[]", bn, nf.sym(J)), nf.fn("len", bn))
+                v = Vec(nf.fn("[]", bn, nf.sym(J)), _term_len(bn))
                 return self._slice_vec(v, idx)
         if isinstance(idx, Num) and isinstance(base, Num):
             r = self._gather(bn, idx.nf)
@@ -2087,6 +2122,9 @@ class Interp:
                 self_val = ClassV(fi.cls)
             bound = self.bind_internal(fi, args, kwargs, has_self, node)
             is_opaque = fi.qualname in self.opaque or (fi.cls is not None and (fi.name in self.opaque_methods or f"{fi.module.name}:{fi.name}" in self.opaque_methods))
+            if not is_opaque and sum(1 for g in self.stack if g is fi) >= 2:
+                # a function that calls itself (per element of its own argument, say): the inner call is kept as one term
+                is_opaque = True
             self.log("int_call", node, callee=fi.qualname, args=bound, recv=self_val, inlined=not is_opaque)
             if fi.qualname in self.stubs:
                 return self.stubs[fi.qualname](bound)
@@ -2226,6 +2264,16 @@ class Interp:
         return bound
 
     def _call_extobj(self, obj: ExtObj, args, kwargs, node):
+        if obj.qual == "collections.namedtuple" and not obj.args.get("recv"):
+            # T = namedtuple("T", "a b c") / namedtuple("T", ["a", "b", "c"]); T(...) is the tuple with those field names
+            spec = obj.args.get("field_names", obj.args.get("1"))
+            fields = None
+            if isinstance(spec, StrV):
+                fields = spec.s.replace(",", " ").split()
+            elif isinstance(spec, TupV) and all(isinstance(x, StrV) for x in spec.items):
+                fields = [x.s for x in spec.items]
+            if fields and not (set(obj.args) - {"0", "1", "typename", "field_names"}) and len(args) + len(kwargs) == len(fields) and set(kwargs) <= set(fields[len(args) :]):
+                return TupV(list(args) + [kwargs[f] for f in fields[len(args) :]], names=tuple(fields))
         parts = [self.to_nf(a) for a in args]
         ev = self.log("extobj_call", node, obj=obj, args=args, kwargs=kwargs)
         base = self.to_nf(obj)
@@ -2430,6 +2478,45 @@ def _loop_carried(body):
         else:
             reads(st)
     return carried
+
+
+_SOLVERS = ("scipy.sparse.linalg.spsolve{", "scipy.linalg.solve_banded{", "numpy.linalg.solve{", "scipy.linalg.solve{", "scipy.linalg.solveh_banded{")
+
+
+def _term_len(t, depth=0):
+    """len() of an opaque array term where the term itself says it: a vector built in the trace, the solution of a
+    linear system (as long as its right-hand side), a one-argument property function of such an array (applied
+    element by element: numpy would raise on a real mismatch, and such code could not pass the suite)"""
+    at = Interp.single_atom(t)
+    if at is not None and at[0] == "fn" and depth < 6:
+        name, args = at[1], [nf.unkey(a) for a in at[2]]
+        if name == "vec" and len(args) >= 2:
+            return args[1]
+        inner = None
+        if name.startswith(_SOLVERS):
+            names = name[name.index("{") + 1 : -1].split(",")
+            if "b" in names:
+                inner = args[names.index("b")]
+        elif len(args) == 1 and "{" not in name and name not in ("len", "[]", "vec", "tuple"):
+            inner = args[0]
+        if inner is not None:
+            r = _term_len(inner, depth + 1)
+            ra = Interp.single_atom(r)
+            if not (ra is not None and ra[0] == "fn" and ra[1] == "len"):
+                return r
+    if at is None and depth < 6 and isinstance(t, dict):
+        # an element-wise expression: as long as the arrays in it
+        found = {}
+        for mono in t:
+            for atom, _e in mono:
+                if atom[0] == "fn" and atom[2]:
+                    r = _term_len(nf.atom_poly(atom), depth + 1)
+                    ra = Interp.single_atom(r)
+                    if not (ra is not None and ra[0] == "fn" and ra[1] == "len"):
+                        found[nf.key(r)] = r
+        if len(found) == 1:
+            return next(iter(found.values()))
+    return nf.fn("len", t)
 
 
 def _len_compatible(a, b):
@@ -2678,6 +2765,10 @@ def _h_range(it, args, kwargs, bound, node, qual):
 
 def _h_enumerate(it, args, kwargs, bound, node, qual):
     st = kwargs.get("start", args[1] if len(args) > 1 else None)
+    if len(args) in (1, 2) and not (set(kwargs) - {"start"}) and isinstance(st, Num) and st.nf and nf.as_int(st.nf) is not None and isinstance(args[0], TupV) and not args[0].rowview and not args[0].arr:
+        # enumerate(<literal sequence>, start=k): the literal pairs (k, item0), (k + 1, item1), ...
+        k0 = nf.as_int(st.nf)
+        return TupV([TupV([const_num(k0 + j), x]) for j, x in enumerate(args[0].items)], is_list=True)
     if len(args) > 2 or set(kwargs) - {"start"} or (st is not None and not (isinstance(st, Num) and not st.nf)):
         return None  # enumerate(x, start) with start != 0: the counter does not start at 0 - not modelled
     return EnumV(args[0])
